@@ -515,6 +515,7 @@ def check_C01(tier, seed):
         if q.well_formed():
             progs.append(q)
     progs += F.join_templates(seed + 6, max(6, n // 4), 14000, k=k, nsets=(2,), p_eoi=0.0)
+    progs += F.realistic_family(seed + 7, sizes(tier, 10, 120), 16000, k=3)
     import random
     rnd = random.Random(seed)
     for p in progs:
@@ -530,7 +531,8 @@ def check_C01(tier, seed):
         "programs: 10 fixed maximal-munch shapes (the property's own examples, issue 16, cycles and "
         "joins) + seeded random 2-6 rule single-rule-set definitions with and without `rule` "
         "blocks + the same shapes in a second rule set entered by a switch + join templates over "
-        "two rule sets; " + INPUTS_RULE + "compared: (rule, lexeme byte span) of every action and token",
+        "two rule sets + families.realistic_family (keywords/identifiers/numbers/operators/sign "
+        "with context/comments/strings as rule sets); " + INPUTS_RULE + "compared: (rule, lexeme byte span) of every action and token",
         artifact="accepting rules / rewind flags of the compiled automaton are wrong")
 
 
@@ -538,11 +540,13 @@ def check_C03(tier, seed):
     n, k = sizes(tier, (60, 3), (700, 4))
     progs = F.random_general(seed, n, 100, k=k, nsets=(2, 2, 3, 3, 4), nrules=(0, 1, 2, 2, 3),
                              menu_sizes=(1, 2, 2, 3), p_fal=0.2)
+    progs += F.realistic_family(seed + 7, sizes(tier, 10, 120), 16000, k=3)
     return generic_replay_check(
         "C03", tier, progs, proj_c03,
         "a rule of a rule set that is not active ran (or the wrong rule set was entered)",
         "programs: seeded random definitions with 2-4 rule sets (empty ones included), every rule "
-        "with a menu of 1-3 decisions among continue/return x reset x switch-to-any-rule-set; "
+        "with a menu of 1-3 decisions among continue/return x reset x switch-to-any-rule-set, plus "
+        "families.realistic_family (strings and block comments as rule sets); "
         + INPUTS_RULE + "compared: (rule, lexeme span) of every action and token up to the first "
         "InvalidToken, and over the whole trace that every rule that ran belongs to the rule set "
         "that the trace's own switch decisions / failures made active",
@@ -580,11 +584,13 @@ def check_C05(tier, seed):
                                 menu_sizes=(1, 2), p_fal=0.0, named=False, letters=(F.A, F.B),
                                 sigma=(F.A, F.B, 120))
              + F.join_templates(seed + 2, n // 2, 6000, k=k, p_eoi=0.8))
+    progs += F.realistic_family(seed + 7, sizes(tier, 10, 120), 16000, k=3)
     return generic_replay_check(
         "C05", tier, progs, proj_c05,
         "end-of-input protocol violated ($ rule, None/InvalidToken at the end, fused stream)",
         "programs: seeded random definitions over {a,b} with `$`-tailed rules in Init and in other "
-        "rule sets (40-50% of rules), with and without `rule` blocks; " + INPUTS_RULE +
+        "rule sets (40-50% of rules), with and without `rule` blocks, plus families.realistic_family "
+        "(unterminated strings / comments at end of input); " + INPUTS_RULE +
         "the input therefore ends at every point (inside a lexeme, after a match, after a rewind, "
         "in any rule set); compared: every action and item with byte positions up to the first "
         "InvalidToken, and four further next() calls after the first None")
@@ -643,11 +649,13 @@ def check_C10(tier, seed):
     n, k = sizes(tier, (60, 3), (700, 4))
     progs = (F.random_general(seed, n, 100, k=k, nsets=(1, 2, 2), nrules=(2, 3, 4),
                               menu_sizes=(2, 3, 3), p_fal=0.4, p_sugar=0.3))
+    progs += F.realistic_family(seed + 7, sizes(tier, 10, 120), 16000, k=3)
     return generic_replay_check(
         "C10", tier, progs, proj_c10,
         "the semantic-action protocol was violated (invocation, match text/loc, peek, token span, sugar)",
         "programs: seeded random definitions mixing `re,` / `re = t` / `=>` / `=?` rules, every "
-        "non-sugar rule with a menu of 2-3 decisions (continue/return/Err x reset_match x switch); "
+        "non-sugar rule with a menu of 2-3 decisions (continue/return/Err x reset_match x switch), "
+        "plus families.realistic_family (accumulating string / comment rule sets); "
         + INPUTS_RULE + "compared: every action invocation in full (rule, user-state counter, "
         "match_loc, match_ text, peek, decision) and every token / custom error in full")
 
@@ -684,13 +692,35 @@ def scripted_expected(tag, prog, inp, script):
 
 def random_inputs(rnd, prog, n_runs, maxlen, extra=()):
     reqs = []
-    sig = prog.sigma
+    sig = list(prog.sigma)
+    from progs import sample_regex
+    rules_ = list(prog.rules())
+    env_ = prog.envmap()
+    bi_ = getattr(prog, "bi", None)
     for t in range(n_runs):
         r = rnd.random()
         if r < 0.05:
             inp = []
         elif r < 0.15:
             inp = [rnd.choice(sig)] * rnd.randrange(1, maxlen)
+        elif r < 0.6 and rules_:
+            # lexemes of the rules (and their context), some cut short or with a wrong
+            # character, one after the other: reaches the deep states of long rules
+            inp = []
+            for _ in range(rnd.choice([1, 2, 3, 4, 6])):
+                rl = rnd.choice(rules_)
+                frag = sample_regex(rl["re"], env_, rnd, sig, bi_)
+                if rl.get("ctx") is not None and rnd.random() < 0.5:
+                    frag = frag + sample_regex(rl["ctx"], env_, rnd, sig, bi_)
+                q = rnd.random()
+                if q < 0.2 and frag:
+                    frag = frag[:-1]
+                elif q < 0.3:
+                    frag = frag + [rnd.choice(sig)]
+                elif q < 0.4 and frag:
+                    frag[rnd.randrange(len(frag))] = rnd.choice(sig)
+                inp += frag
+            inp = inp[:maxlen]
         else:
             n = rnd.randrange(1, maxlen)
             # biased towards the program's own letters, with a few foreign characters
@@ -2319,8 +2349,8 @@ def check_C02(tier, seed):
                            depth=4, p_ctx=0.15, p_eoi=0.15, p_var=0.3, menu_sizes=(1,))
     # the same with multi-byte letters (strings ending in a non-ASCII character, seed S-F16)
     big += F.random_general(seed + 9, sizes(tier, 60, 400), 250000, k=3, nsets=(1, 1, 2), nrules=(1, 2, 3),
-                            depth=3, p_var=0.2, menu_sizes=(1,), letters=(97, 233, 0x65E5),
-                            sigma=(97, 233, 0x65E5, 0x1F600))
+                            depth=3, p_var=0.2, menu_sizes=(1,), letters=(97, 233, 28450),
+                            sigma=(97, 233, 28450, 128512))
     classes = class_family(seed, sizes(tier, 120, 600), 300000)
     # two rules whose leading ranges overlap in every possible way (the subset construction
     # merges their range transitions; the later rule must not disturb the earlier one)
